@@ -42,6 +42,15 @@ var deepMenu = []int{1, 3, 60, 127, 128, 129, 130, 200, 1000, 5000}
 var nestMenu = []int{3, 500, 4094, 4095, 4096, 4097, 4098, 5000}
 
 func c04Input(r *core.Rand) inputs.Input {
+	in := c04InputBase(r)
+	if r.Chance(1, 10) && in.Fam != "empty" {
+		// white space in front: markup, JSON and text checks skip it, magic numbers do not
+		in.Lead = []int{1, 1, 2, 3, 5, 7, 8, 64}[r.Intn(8)]
+	}
+	return in
+}
+
+func c04InputBase(r *core.Rand) inputs.Input {
 	n := c04Size(r)
 	in := inputs.Input{N: n, Seed: r.Uint64() % 1000}
 	switch v := r.Intn(100); {
@@ -306,15 +315,35 @@ func siblingsPlan(r *core.Rand) *Plan {
 		base = c04Input(r)
 	}
 	sibs := []inputs.Input{base}
-	for i, n := 0, r.Range(2, 4); i < n; i++ {
+	shifted := r.Chance(1, 4)
+	if shifted {
+		// "shifted" mode: one or two contents whose checks skip leading white space, each behind
+		// 0-12 bytes of it - what a remembered offset (keyed by address and length) gets wrong
+		fams := []string{"xml_enc", "html_meta", "html_mix", "svg", "json", "text", "rtf", "shebang", "geojson", "xml_enc", "html_mix"}
+		base = inputs.Input{Fam: fams[r.Intn(len(fams))], N: r.Range(60, 400), V: r.Intn(6), Seed: r.Uint64() % 1000}
+		other := inputs.Input{Fam: fams[r.Intn(len(fams))], N: r.Range(60, 400), V: r.Intn(6), Seed: r.Uint64() % 1000}
+		sibs = sibs[:0]
+		for i, n := 0, r.Range(4, 7); i < n; i++ {
+			s := base
+			if r.Chance(1, 4) {
+				s = other
+			}
+			s.Lead = r.Intn(13)
+			sibs = append(sibs, s)
+		}
+	}
+	for i, n := 0, r.Range(2, 4); i < n && !shifted; i++ {
 		s := base
-		switch r.Intn(4) {
+		switch r.Intn(5) {
 		case 0:
 			s.V = base.V + 1 + i
 		case 1:
 			s.Seed = base.Seed + 1 + uint64(i)
 		case 2:
 			s.V, s.Seed = base.V+1+i, base.Seed+7
+		case 3:
+			// the same content behind another amount of leading white space
+			s.Lead = []int{1, 2, 3, 5, 7, 8}[(base.Lead+i+r.Intn(6))%6]
 		default:
 			s.V, s.P = base.V+1+i, base.P+1
 		}
@@ -336,7 +365,11 @@ func siblingsPlan(r *core.Rand) *Plan {
 		p.Limit0 = 3072
 	}
 	var ops []Op
-	for i, n := 0, r.Range(8, 16); i < n; i++ {
+	nops := r.Range(8, 16)
+	if shifted {
+		nops = r.Range(14, 24)
+	}
+	for i, n := 0, nops; i < n; i++ {
 		in := sibs[r.Intn(len(sibs))]
 		op := Op{Kind: "detect", In: &in, Reuse: true}
 		if r.Chance(1, 8) {
@@ -351,11 +384,13 @@ func siblingsPlan(r *core.Rand) *Plan {
 // ambientMenu: process-wide state outside the library that a detection has no business
 // consulting - the standard library's table of media types and file extensions (mutable
 // through mime.AddExtensionType, initialised from the host's mime.types), environment
-// variables. The reference process never sees these changes.
+// variables - and the clock (simulated: the library's import of "time" is redirected to a shim
+// whose Now only moves when a plan says so). The reference process never sees these changes.
 var ambientMenu = []string{
 	"mime:.vf0|application/octet-stream", "mime:.vf1|application/octet-stream", "mime:.vf2|text/plain", "mime:.vf3|text/plain; charset=utf-8",
 	"mime:.vf4|application/json", "mime:.vf5|application/zip", "mime:.vf6|text/html", "mime:.txt|application/x-verif", "mime:.json|text/x-verif", "mime:.zip|application/x-verif-zip",
 	"env:LANG=ru_RU.KOI8-R", "env:LC_ALL=ja_JP.eucJP", "env:LC_CTYPE=tr_TR.ISO-8859-9", "env:TZ=Asia/Kolkata", "env:HOME=/nonexistent", "env:XDG_DATA_HOME=/nonexistent", "env:XDG_DATA_DIRS=/nonexistent",
+	"clock:1", "clock:121", "clock:3601", "clock:86401", "clock:-7200", "clock:2678401",
 }
 
 func (c *c04) Plan(seed uint64, tier string, worker, workers, idx int) *Plan {
